@@ -4,6 +4,7 @@ import random
 import vf
 import ddgen
 from checks import ddcommon
+from checks import c12scommon
 
 META = {
     "title": "pick_cube / pick_cube_dd / pick_cube_dd_set / pick_cube_uniform",
@@ -111,14 +112,55 @@ def gen_cases(ctx):
     return cases
 
 
+KEPT_RULE = ("kept-cache stage (package C12s; kinds bdd/bcdd/zbdd, snapshot after every operation): pick_cube_uniform with ONE long-lived "
+             "F64 SatCountCache per case (`PICKUNIC cacheid handle seed 20000`; cache_all for odd ids): sample a function, drop it, "
+             "collect / reorder / add a variable, build another function whose nodes take the freed node ids, sample it with the same "
+             "cache; sat_count as F64 through the same object in between; every histogram judged by the C13 predicates (only models, "
+             "none iff unsatisfiable, frequency against 2^dc/#models and against the model's exact branch-probability product); every "
+             "observed cube replayed by the extracted pick_cube, the closure's two sat_count_edge calls per asked node by the extracted "
+             "uni_trace on the model's copy of the cache, and the real cache map compared with the model's after every operation")
+KEPT_RELATION = ("C13: pick_cube_uniform with a kept SatCountCache: histogram satisfies the C13 predicates; the F64 cache map after the "
+                 "draws == the extracted uni_trace / sat_query on the model's copy (coq/DD/SatCache.v); coq/Props/C13.v C13_*_uniform_*, "
+                 "coq/Props/C12.v C12_cache_uni_counts")
+
+
+def gen_kept_cases(ctx):
+    rng = random.Random(ctx.seed * 15485863 + 131)
+    thorough = ctx.tier == "thorough"
+    cases = []
+    for kind in ddgen.KINDS_BOOL:
+        for i in range(60 if thorough else 8):
+            cases.append(c12scommon.case_uniform_kept(f"uk-{kind}-{i}", kind, rng, rounds=rng.randrange(3, 8), draws=20000))
+        for i in range(40 if thorough else 6):
+            cases.append(c12scommon.case_kept(f"kk-{kind}-{i}", kind, rng, rounds=rng.randrange(3, 7)))
+    return cases
+
+
+def run_kept_stage(ctx):
+    before = dict(ctx.stats)
+    ok, bad, cases = c12scommon.run_stage(ctx, "C13", gen_kept_cases(ctx), ["C13"], KEPT_RELATION)
+    if ctx.stats.get("c12s_unresolved", 0) and not bad:
+        raise vf.CheckFailure(f"kept-cache stage: {ctx.stats['c12s_unresolved']} operations could not be resolved by the driver")
+    g = lambda k: int(ctx.stats.get(k, 0)) - int(before.get(k, 0))
+    return {"kept_cases": len(cases), "kept_cases_ok": ok, "kept_cases_bad": len(bad),
+            "kept_pick_uniform_ops": g("c12s_pickunic"), "kept_cache_entries_compared": g("c12s_cache_entries"),
+            "kept_epoch_changes": g("c12s_epoch_changes")}
+
+
 def run(ctx):
+    vf.proof_gate(ctx, ALLOWED_AXIOMS)
+    kept_cov = run_kept_stage(ctx)
     with _own_driver():
         ddcommon.run_dd(
-            ctx, ["C13"], gen_cases(ctx),
-            rule="per kind (bdd, bcdd, zbdd): 256 three-variable functions x 8 choice vectors (pick_cube + pick_cube_dd) and x 27 literal sets (pick_cube_dd_set) under one seed-chosen order (quick) / all 6 (thorough); random functions, choice vectors and literal sets over 4..7 variables under random orders; uniform sampling with fixed seeds (20000 draws per function). non-trivial = case with >= 3 ops",
+            ctx, ["C13"], gen_cases(ctx), proofs=False, extra_cov=kept_cov,
+            rule=KEPT_RULE + "; per kind (bdd, bcdd, zbdd): 256 three-variable functions x 8 choice vectors (pick_cube + pick_cube_dd) and x 27 literal sets (pick_cube_dd_set) under one seed-chosen order (quick) / all 6 (thorough); random functions, choice vectors and literal sets over 4..7 variables under random orders; uniform sampling with fixed seeds (20000 draws per function). non-trivial = case with >= 3 ops",
             allowed_axioms=ALLOWED_AXIOMS)
 
 
 def replay(ctx, path):
+    import json
+    r = json.load(open(path))
+    if r.get("config") == "kept-cache":
+        return c12scommon.replay(ctx, r)
     with _own_driver():
         ddcommon.replay_dd(ctx, path)
